@@ -446,9 +446,56 @@ func c17Instantiations(w *rt.W, s string) {
 			r := uu.RuleDisableURN | uu.RuleDisableUpperCaseDigits
 			return [4]out{mk(uu.DefaultParser(s, r)), mk(uu.DefaultParser(b(), r)), mk(uu.DefaultParser(nStr(s), r)), mk(uu.DefaultParser(nBytes(b()), r))}
 		}},
+		{"date.DefaultParser(0) [standard-library types]", func() [4]out {
+			return [4]out{mk(date.DefaultParser(s, 0)), mk(date.DefaultParser(json.RawMessage(b()), 0)), mk(date.DefaultParser(json.Number(s), 0)), mk(date.DefaultParser(sql.RawBytes(b()), 0))}
+		}},
+		{"date.DefaultParser(RuleDisableBasic) [standard-library types]", func() [4]out {
+			return [4]out{mk(date.DefaultParser(s, date.RuleDisableBasic)), mk(date.DefaultParser(json.RawMessage(b()), date.RuleDisableBasic)), mk(date.DefaultParser(json.Number(s), date.RuleDisableBasic)), mk(date.DefaultParser(sql.RawBytes(b()), date.RuleDisableBasic))}
+		}},
+		{"roman.DefaultParser(0) [standard-library types]", func() [4]out {
+			return [4]out{mk(roman.DefaultParser(s, 0)), mk(roman.DefaultParser(json.RawMessage(b()), 0)), mk(roman.DefaultParser(json.Number(s), 0)), mk(roman.DefaultParser(sql.RawBytes(b()), 0))}
+		}},
+		{"roman.Valid(RuleDisableEmptyAsZero) [standard-library types]", func() [4]out {
+			return [4]out{mk(0, roman.Valid(s, roman.RuleDisableEmptyAsZero)), mk(0, roman.Valid(json.RawMessage(b()), roman.RuleDisableEmptyAsZero)), mk(0, roman.Valid(json.Number(s), roman.RuleDisableEmptyAsZero)), mk(0, roman.Valid(sql.RawBytes(b()), roman.RuleDisableEmptyAsZero))}
+		}},
+		{"sem.Parse [standard-library types]", func() [4]out {
+			return [4]out{mk(sem.Parse(s)), mk(sem.Parse(json.RawMessage(b()))), mk(sem.Parse(json.Number(s))), mk(sem.Parse(sql.RawBytes(b())))}
+		}},
+		{"sem.ParseVersion [standard-library types]", func() [4]out {
+			return [4]out{mk(sem.ParseVersion(s)), mk(sem.ParseVersion(json.RawMessage(b()))), mk(sem.ParseVersion(json.Number(s))), mk(sem.ParseVersion(sql.RawBytes(b())))}
+		}},
+		{"sem.ParseTag [standard-library types]", func() [4]out {
+			return [4]out{mk(sem.ParseTag(s)), mk(sem.ParseTag(json.RawMessage(b()))), mk(sem.ParseTag(json.Number(s))), mk(sem.ParseTag(sql.RawBytes(b())))}
+		}},
+		{"sem.DefaultParser(RuleDisableTag) [standard-library types]", func() [4]out {
+			return [4]out{mk(sem.DefaultParser(s, sem.RuleDisableTag)), mk(sem.DefaultParser(json.RawMessage(b()), sem.RuleDisableTag)), mk(sem.DefaultParser(json.Number(s), sem.RuleDisableTag)), mk(sem.DefaultParser(sql.RawBytes(b()), sem.RuleDisableTag))}
+		}},
+		{"sem.DefaultComparePreRelease(x, \"rc.1\") [standard-library types]", func() [4]out {
+			return [4]out{mk(sem.DefaultComparePreRelease(s, "rc.1"), nil), mk(sem.DefaultComparePreRelease(json.RawMessage(b()), []byte("rc.1")), nil), mk(sem.DefaultComparePreRelease(json.Number(s), sql.RawBytes("rc.1")), nil), mk(sem.DefaultComparePreRelease(sql.RawBytes(b()), json.Number("rc.1")), nil)}
+		}},
+		{"size.DefaultParser(0) [standard-library types]", func() [4]out {
+			return [4]out{mk(size.DefaultParser(s, 0)), mk(size.DefaultParser(json.RawMessage(b()), 0)), mk(size.DefaultParser(json.Number(s), 0)), mk(size.DefaultParser(sql.RawBytes(b()), 0))}
+		}},
+		{"size.DefaultParser(DefaultRule) [standard-library types]", func() [4]out {
+			return [4]out{mk(size.DefaultParser(s, size.DefaultRule)), mk(size.DefaultParser(json.RawMessage(b()), size.DefaultRule)), mk(size.DefaultParser(json.Number(s), size.DefaultRule)), mk(size.DefaultParser(sql.RawBytes(b()), size.DefaultRule))}
+		}},
+		{"size.DefaultParser(all rules) [standard-library types]", func() [4]out {
+			r := size.RuleDisableUnit | size.RuleEnableJSONStringForm | size.RuleEnableJSONObjectForm | size.RuleDisallowUnknownKeys
+			return [4]out{mk(size.DefaultParser(s, r)), mk(size.DefaultParser(json.RawMessage(b()), r)), mk(size.DefaultParser(json.Number(s), r)), mk(size.DefaultParser(sql.RawBytes(b()), r))}
+		}},
+		{"uu.DefaultParser(0) [standard-library types]", func() [4]out {
+			return [4]out{mk(uu.DefaultParser(s, 0)), mk(uu.DefaultParser(json.RawMessage(b()), 0)), mk(uu.DefaultParser(json.Number(s), 0)), mk(uu.DefaultParser(sql.RawBytes(b()), 0))}
+		}},
+		{"uu.DefaultParser(all rules) [standard-library types]", func() [4]out {
+			r := uu.RuleDisableURN | uu.RuleDisableUpperCaseDigits
+			return [4]out{mk(uu.DefaultParser(s, r)), mk(uu.DefaultParser(json.RawMessage(b()), r)), mk(uu.DefaultParser(json.Number(s), r)), mk(uu.DefaultParser(sql.RawBytes(b()), r))}
+		}},
 	}
-	names := [4]string{"string", "[]byte", "named string", "named []byte"}
 	for _, e := range entries {
+		names := [4]string{"string", "[]byte", "named string", "named []byte"}
+		if strings.HasSuffix(e.name, "[standard-library types]") {
+			names = [4]string{"string", "json.RawMessage", "json.Number", "sql.RawBytes"}
+		}
 		var o [4]out
 		panicked, msg := rt.Call(func() { o = e.run() })
 		w.Eval(4)
@@ -485,7 +532,7 @@ func runC17(c *rt.Ctx) {
 	c.Extra("history_before_the_streams", "an episode of failing configured Formatter/Parser variables in all five packages")
 	nHist := c.Pick(20000, 600000)
 	c.SetRule(fmt.Sprintf("per type (date, roman, sem, size, uu) %d seeded histories of %d operations on one receiver: UnmarshalText (all), UnmarshalJSON (size), UnmarshalBinary and Scan (date), inputs drawn from valid texts of non-zero values, single-byte mutations, truncations, over-long and empty inputs, wrong-type Scan sources, wrong length/version and month/day-invalid binaries, with a failing call forced after two thirds of the successful ones; ", nHist, c17HistoryLen) +
-		"every input is carved from a larger array with guard bytes (snapshot before, compare after, then overwritten) and the receiver is compared with a deep-copied model after every step and after the overwrite; separately a pool of valid and near-valid inputs goes through 14 generic entry points instantiated at string, []byte, a named string type and a named byte-slice type. " +
+		"every input is carved from a larger array with guard bytes (snapshot before, compare after, then overwritten) and the receiver is compared with a deep-copied model after every step and after the overwrite; separately a pool of valid and near-valid inputs goes through 14 generic entry points instantiated at string, []byte, a named string type and a named byte-slice type, and at the standard library's json.RawMessage, json.Number and sql.RawBytes. " +
 		"distinct_nontrivial counts distinct histories (by seed/index) that contain the pattern success(non-zero) -> failure")
 	c.Assume("the receiver's observable value is captured through its exported accessors/fields with string contents cloned; Go runtime trusted")
 	{
@@ -645,8 +692,51 @@ func runC17(c *rt.Ctx) {
 			for _, s := range []string{"", " ", "v", "1.0.0", "v1.0.0-rc.1+b", "2021-02-28", "20210228", "MMXXI", "mmxxi", "10 kB", `"10kB"`, `{"value":1,"unit":"B"}`, "urn:uuid:f81d4fae-7dec-11d0-a765-00a0c91e6bf6", "F81D4FAE-7DEC-11D0-A765-00A0C91E6BF6", "\xff\xfe", "ééa", "rc.1", "rc.01", "\x00"} {
 				c17Instantiations(w, s)
 			}
+			// JSON documents that are almost one value: something behind it, something missing at the end
+			for _, doc := range []string{"1", "1024", `"1KiB"`, `"10 kB"`, `{"value":1,"unit":"KiB"}`, `{"unit":"MB","value":3}`, `{"value":"7"}`, "null", "1e3", "1.5e1"} {
+				for _, tail := range []string{" x", " 2", " 1", ",", "}", "]", "\x00", " null", `""`, " trailing", "\n\n{}", "//c"} {
+					c17Instantiations(w, doc+tail)
+					c17Instantiations(w, " "+doc+tail)
+				}
+				for cut := 1; cut < len(doc); cut++ {
+					c17Instantiations(w, doc[:cut])
+				}
+				w.ClassN("instantiation-json-almost-one-value", 1)
+			}
 		}
 	})
+	c.Require("instantiation-json-almost-one-value", 10)
+	{
+		// inputs longer than any default limit, with the limits raised or removed: refused ones are printed (Error()) before the buffers are compared
+		oD, oR, oS, oZ, oU := date.MaxInputLength, roman.MaxInputLength, sem.MaxInputLength, size.MaxInputLength, uu.MaxInputLength
+		for _, limit := range []int{0, 1 << 20} {
+			date.MaxInputLength, roman.MaxInputLength, sem.MaxInputLength, size.MaxInputLength, uu.MaxInputLength = limit, limit, limit, limit, limit
+			c.Parallel(fmt.Sprintf("instantiations-long-%d", limit), 0, func(w *rt.W) {
+				bases := []string{"2021-02-28", "MMXXI", "v1.0.0-rc.1+b", "1.2.3", "10 kB", `{"value":1,"unit":"B"}`, "f81d4fae-7dec-11d0-a765-00a0c91e6bf6", "x", ""}
+				lens := []int{250, 253, 254, 255, 256, 257, 258, 260, 300, 511, 512, 513, 1000, 1023, 1024, 1025, 4096, 5000, 70000}
+				n := 0
+				for _, base := range bases {
+					for _, l := range lens {
+						n++
+						if n%w.NShards != w.Shard {
+							continue
+						}
+						for _, fill := range []string{"x", " ", "0", "M", ".1", "\xc3\xa9"} {
+							if l <= len(base) {
+								continue
+							}
+							pad := strings.Repeat(fill, (l-len(base))/len(fill)+1)[:l-len(base)]
+							c17Instantiations(w, base+pad)
+							c17Instantiations(w, pad+base)
+							w.ClassN("instantiation-long-input-with-limit-raised", 2)
+						}
+					}
+				}
+			})
+		}
+		date.MaxInputLength, roman.MaxInputLength, sem.MaxInputLength, size.MaxInputLength, uu.MaxInputLength = oD, oR, oS, oZ, oU
+		c.Require("instantiation-long-input-with-limit-raised", 1000)
+	}
 	// the caller refills one buffer with document after document (all five types, every []byte entry point)
 	refillRun(c, c.Pick(30000, 300000), "date", "date-json", "roman", "sem", "size", "size-text", "uu")
 	c17Configured(c)
